@@ -592,7 +592,8 @@ Fixpoint path_loop (fuel : nat) (t : st) (top : ppath) (below : list ppath) : re
           let n := index_len (rest (pos t3)) in
           if negb (n =? 0) then
             let p := pos t3 + n in
-            path_loop f (set_both t3 p) (pp_push top (ESegInt (int_of_str (sub (pos t3) p)))) below
+            (* fix C17/0005: the stop moves past the index, as for a property name *)
+            path_loop f (set_both t3 p) (pp_stop (pp_push top (ESegInt (int_of_str (sub (pos t3) p)))) p) below
           else syn (pos t3)                               (* "array indexes must use bracket notation" *)
         else syn (pos t3)                                 (* "expected a property name or array index" *)
     else if N.eqb c 93 then                               (* "]" *)
